@@ -41,9 +41,12 @@ def run(ctx):
     for nm, fn in (("Fs", r_flags.rule_F_sinks), ("Fh", r_flags.rule_F_hash_many), ("Fl", r_flags.rule_F_literals), ("F5", r_flags.rule_F5),
                    ("F6", r_flags.rule_F6), ("K3M1", r_consts.rule_K3_M1), ("W1", r_globals.rule_W1), ("G3", r_globals.rule_G3), ("ZP", r_state.rule_ZP)):
         ctx.run_rule(nm, fn, cfgs)
-    std = [c for c in cfgs if c not in ("portable1", "asm-nostd", "neon1")]
+    import extract
+    std = [c for c in cfgs if c not in extract.NO_STD]
     ctx.run_rule("LZ", r_state.rule_LZ, std)
     ctx.run_rule("I2", r_io.rule_I2, std)
     ctx.run_rule("I4", r_io.rule_I4, std)
+    import r_secrecy
+    ctx.run_rule("ZL", r_secrecy.rule_ZL, [c for c in cfgs if c.endswith("-full")])      # the configurations with the zeroize feature
     ctx.run_rule("I1", r_io.rule_I1, std)
     ctx.run_rule("I3", r_io.rule_I3, [c for c in std if c.endswith("-full")])
